@@ -253,12 +253,12 @@ func ZZ_C11_Insert(mode int) {
 		bds = []BlockData{{Name: "tx_idx", Column: "tx_idx"}, {Name: "tx_value", Column: "tx_value"}, {Name: "tx_to", Column: "tx_to"}, {Name: "tx_nonce", Column: "tx_nonce"}}
 	case 1:
 		bds = []BlockData{{Name: "trace_action_idx", Column: "trace_action_idx"}, {Name: "trace_action_value", Column: "trace_action_value"}, {Name: "trace_action_from", Column: "trace_action_from"}, {Name: "trace_action_call_type", Column: "trace_action_call_type"}}
-	case 2:
+	case 2, 3:
 		ev = Event{Name: "Ev", Inputs: []Input{{Name: "a", Type: "uint256", Indexed: true, Column: "c_a"}}}
 		bds = []BlockData{{Name: "log_idx", Column: "log_idx"}, {Name: "log_addr", Column: "log_addr"}}
 	}
 	tbl := wpg.Table{Name: "t"}
-	if mode == 2 {
+	if mode == 2 || mode == 3 {
 		tbl.Columns = append(tbl.Columns, wpg.Column{Name: "c_a", Type: "numeric"})
 	}
 	for _, bd := range bds {
@@ -298,16 +298,32 @@ func ZZ_C11_Insert(mode int) {
 				t.TraceActions[ai] = eth.TraceAction{Idx: uint64(ai), From: it.bytes, CallType: "call", Value: uint256.Int{it.u64a, 0, 0, 0}}
 				items = append(items, it)
 			}
-		case 2:
-			t.Logs = make(eth.Logs, 2)
-			for li := range t.Logs {
+		case 2, 3:
+			// mode 3: logs of OTHER events sit between the declared event's logs
+			// (same signature hash with another topic count, and another hash):
+			// they yield no row and must not disturb the rows around them
+			kinds := []int{0, 0}
+			if mode == 3 {
+				kinds = []int{0, 1, 0, 2, 0}
+			}
+			t.Logs = make(eth.Logs, len(kinds))
+			for li, kind := range kinds {
 				it := item{u64a: zzvrf.U64("topic1.low"), u64b: zzvrf.U64("log_idx"), bytes: zzvrf.Bytes("log_addr", 20, 20)}
 				topic1 := make([]byte, 32)
 				for k := 0; k < 8; k++ {
 					topic1[31-k] = byte(it.u64a >> (8 * uint(k)))
 				}
-				t.Logs[li] = eth.Log{Idx: eth.Uint64(it.u64b), Address: it.bytes, Topics: []eth.Bytes{append([]byte(nil), ig.sighash...), topic1}}
-				items = append(items, it)
+				switch kind {
+				case 0:
+					t.Logs[li] = eth.Log{Idx: eth.Uint64(it.u64b), Address: it.bytes, Topics: []eth.Bytes{append([]byte(nil), ig.sighash...), topic1}}
+					items = append(items, it)
+				case 1: // the declared signature hash with one topic more (e.g. ERC721 vs ERC20 Transfer)
+					t.Logs[li] = eth.Log{Idx: eth.Uint64(it.u64b), Address: it.bytes, Topics: []eth.Bytes{append([]byte(nil), ig.sighash...), topic1, topic1}}
+				case 2: // another event
+					other := zzvrf.Bytes("other-topic0", 32, 32)
+					zzvrf.Assume(!zzvrf.BytesEq(other, ig.sighash))
+					t.Logs[li] = eth.Log{Idx: eth.Uint64(it.u64b), Address: it.bytes, Topics: []eth.Bytes{other, topic1}}
+				}
 			}
 		}
 	}
@@ -356,7 +372,7 @@ func ZZ_C11_Insert(mode int) {
 			zzvrf.Assert(ok && ix == it.u64b, "trace_action_idx-counts-from-zero")
 			fr, ok := row[col("trace_action_from")].([]byte)
 			zzvrf.Assert(ok && zzvrf.BytesEq(fr, it.bytes), "trace_from-of-its-own-action")
-		case 2:
+		case 2, 3:
 			v, ok := row[col("c_a")].(*uint256.Int)
 			zzvrf.Assert(ok && v[0] == it.u64a, "indexed-input-of-its-own-log")
 			li, ok := row[col("log_idx")].(eth.Uint64)
